@@ -1238,7 +1238,11 @@ func (sf *SourceFile) UnmarshalBinary(data []byte) error {
 		return err
 	}
 
-	sf.Name = obj.String()
+	name, ok := obj.(ugo.String)
+	if !ok {
+		return errors.New("invalid source file name")
+	}
+	sf.Name = string(name)
 	var vi varintConv
 	vi.reader = rd
 	v, err := vi.read()
